@@ -151,7 +151,7 @@ func runC02(w *W) {
 	for d := 0; d < ndocs; d++ {
 		vo := vgenOpts{MaxElems: 1 + t.Intn(12, "val.elems"), MaxStr: 1 + sizeClass(t, "val.maxstr", 5000), Depth: 1 + t.Intn(4, "val.depth"),
 			PresentPct: pickInt(t, "val.present", 70, 100, 30, 0), NullPct: pickInt(t, "val.null", 0, 10, 40), UnknownPct: pickInt(t, "val.unknown", 0, 0, 10, 30),
-			Shuffle: true, ASCIIKeys: false, LongDecimals: true}
+			Shuffle: true, ASCIIKeys: false, LongDecimals: true, DenseLists: t.Chance(1, 4, "val.dense")}
 		if opts.NoBase64Binary {
 			vo.StrClass = 0
 		}
